@@ -701,7 +701,8 @@ def correspondence(ctx, verdict, pr):
     for n, c, o, (sig, msg) in sorted(fails, key=lambda f: (f[0], len(f[1]['chunks']))):
         key = sig
         if sig == 'target-mismatch':       # one per consumed-prefix class (1 / 5 / buffer size / whole packet)
-            key = (sig, (parsed.get(c['id'], (None, {}))[1] or {}).get('n'))
+            n_consumed = (parsed.get(c['id'], (None, {}))[1] or {}).get('n')
+            key = (sig, n_consumed if n_consumed in ('1', '5', str(FPS)) else 'packet')
         if key in seen or len(seen) >= 6:
             continue
         seen[key] = 1
